@@ -1154,3 +1154,22 @@ def a_expand_dims_to_broadcast(I, args, kw):
 def a_abs2(I, args, kw):
     x = as_complex(args[0])
     return v_add(v_mul(x.re, x.re), v_mul(x.im, x.im))
+
+
+@_ext("numpy.sign")
+def np_sign(I, args, kw):
+    x = args[0]
+    return v_ite(v_cmp("Gt", x, 0), 1, v_ite(v_cmp("Lt", x, 0), -1, 0))
+
+
+@_ext("abtem.distributions._unpack_distributions")
+def a_unpack_distributions(I, args, kw):
+    """Scalar (non-distribution) parameters only: values returned unchanged, weights 1.0 — exactly what the real
+    function computes when no argument is a BaseDistribution (its loop appends each non-distribution arg as is)."""
+    for a in args:
+        if not (isinstance(a, (Sym, int, Fraction))):
+            raise Unsupported("_unpack_distributions with a distribution-valued argument")
+    I.ctx.trusted.add("ASSUMED contract: _unpack_distributions(scalars...) == (scalars, 1.0) (distribution-valued parameters are bounded: C03)")
+    if len(args) == 0:
+        return (), Fraction(1)
+    return tuple(args), Fraction(1)
